@@ -158,14 +158,15 @@ UNITS['anyid'] = dict(
 EDB = 'EventDispatcherBase<int, void (VArg), Pol, MixinFilter<EventDispatcherBase<int, void (VArg), Pol, void>>>'
 EDB0 = 'EventDispatcherBase<int, void (VArg), Pol, void>'
 EDBX = 'EventDispatcherBase<int, void (VArg), PolX, void>'
+EDBY = 'EventDispatcherBase<int, void (VArg), PolY, void>'
 MF = 'MixinFilter<' + EDB0 + '>'
 UNITS['dispatcher'] = dict(
     tu='inst/dispatcher.cpp', # filters of 16..23 characters each: same allocation pattern in clang, so node ids agree across the dumps
     filter=['EventDispatcherBase', 'eventpp::MixinFilter', '_::ForEachMixins', '_::DefaultGetEvent'], std='c++11',
     root=('ClassTemplateSpecializationDecl', 'EventDispatcherBase'), root_q=EDB0,
-    extra_roots=[('ClassTemplateSpecializationDecl', 'EventDispatcherBase', EDBX),
+    extra_roots=[('ClassTemplateSpecializationDecl', 'EventDispatcherBase', EDBX), ('ClassTemplateSpecializationDecl', 'EventDispatcherBase', EDBY),
                  ('ClassTemplateSpecializationDecl', 'MixinFilter', MF)],
-    names={EDB0: 'ED', EDBX: 'EDX', MF: 'MF', 'VArg': 'VArg', 'UserEach': 'UserEach', 'UserEachIf': 'UserEachIf'},
+    names={EDB0: 'ED', EDBX: 'EDX', EDBY: 'EDY', MF: 'MF', 'VArg': 'VArg', 'UserEach': 'UserEach', 'UserEachIf': 'UserEachIf'},
     value_records=['VArg'],
     opaque_records=['VArg', 'UserEach', 'UserEachIf', 'CLT'],
     ghost_sig=[],
